@@ -271,11 +271,18 @@ package websockets
 //@   ghost sent int = 0
 //@   ghost lt int = 0
 //@   ghost lb []byte
+//@   ghost lastReadFailed bool = false
+//@   ghost sawDone bool = false
 //@   call (*websocket.Conn).ReadMessage
 //@     assert[C11:one-read-per-queued-message] sent == reads && arg0 == serverConn
 //@     do reads = reads + 1
 //@     do lt = ret0
 //@     do lb = ret1
+//@     do lastReadFailed = ret2 != nil
+//@   recv Done
+//@     do sawDone = true
+//@   return *
+//@     assert[C11:reader-stops-only-when-the-session-ends-or-a-read-fails] sawDone || lastReadFailed
 //@   send serverMessages
 //@     assert[C11:server-message-queued-unchanged] arg0 == serverMessages && arg1 != nil && !allocated0(arg1) && arg1.Type == lt && arg1.Data == lb && sent == reads - 1
 //@     do sent = sent + 1
@@ -299,9 +306,16 @@ package websockets
 //@     do cur = ret0
 //@     do curOK = ret1
 //@     do taken = taken + 1
+//@   ghost lastWriteFailed bool = false
+//@   ghost sawDone bool = false
 //@   call (*websocket.Conn).WriteMessage
 //@     assert[C11:client-message-written-unchanged] curOK && cur != nil && arg0 == serverConn && arg1 == cur.Type && arg2 == cur.Data && written < taken
 //@     do written = written + 1
+//@     do lastWriteFailed = ret0 != nil
+//@   recv Done
+//@     do sawDone = true
+//@   return *
+//@     assert[C11:writer-stops-only-when-the-session-ends-or-a-write-fails] sawDone || !curOK || lastWriteFailed
 //@   loop 1
 //@     invariant[C11:writer-progress] written <= taken && serverConn != nil && clientMessages != nil && ctx != nil
 
